@@ -1261,6 +1261,15 @@ func init() {
 				corpusCases = append(corpusCases, rc)
 			}
 		}
+		// requests that ask for a protocol switch in the spellings browsers use (Firefox: "keep-alive, Upgrade"; another case of the
+		// protocol name): routed, rewritten and given the Host the configuration says, like any other request
+		for _, tg := range []string{"/rw/v?b=1", "/rw/x?k=orig", "/p/socket?x=1", "/p/q/socket", "/id/ws"} {
+			for _, form := range [][2]string{{"keep-alive, Upgrade", "websocket"}, {"keep-alive, upgrade", "WebSocket"}, {"Upgrade", "WebSocket"}} {
+				corpusCases = append(corpusCases, reqCase{method: "GET", target: tg, host: "client.example",
+					hdr:  [][2]string{{"Connection", form[0]}, {"Upgrade", form[1]}, {"Sec-WebSocket-Version", "13"}, {"Sec-WebSocket-Key", "dGhlIHNhbXBsZSBub25jZQ=="}},
+					resp: &upsRespSpec{status: 200, hdr: [][2]string{{"Content-Type", "text/plain"}}, body: []byte("no switch")}})
+			}
+		}
 		for _, raw := range []bool{false, true} {
 			runCfg(append([]upsSpec(nil), corpus...), raw, corpusCases)
 		}
